@@ -98,6 +98,17 @@ theorem split_law_W :
 
 end
 
+/-- the bridge kernel does not depend on the tree mode: with `halfway_tree=True` the children are computed from the
+stored (rounded) mid point by exactly the same formulas. -/
+theorem split_mode_indep (sqrt : K → K) (s m e W H X1 X2 : K) :
+    Gen.split_HL_hw_W sqrt s m e W H X1 X2 = Gen.split_HL_W sqrt s m e W H X1 X2 ∧
+    Gen.split_HL_hw_H sqrt s m e W H X1 X2 = Gen.split_HL_H sqrt s m e W H X1 X2 ∧
+    Gen.split_HR_hw_W sqrt s m e W H X1 X2 = Gen.split_HR_W sqrt s m e W H X1 X2 ∧
+    Gen.split_HR_hw_H sqrt s m e W H X1 X2 = Gen.split_HR_H sqrt s m e W H X1 X2 ∧
+    Gen.split_WL_hw_W sqrt s m e W X1 = Gen.split_WL_W sqrt s m e W X1 ∧
+    Gen.split_WR_hw_W sqrt s m e W X1 = Gen.split_WR_W sqrt s m e W X1 := by
+  refine ⟨?_, ?_, ?_, ?_, ?_, ?_⟩ <;> rfl
+
 /-- non-vacuity of the hypotheses: over ℝ-like fields `l = 1, r = 2` are positive (the `sqrt` hypothesis is
 satisfied by the real square root; it is a hypothesis on a parameter, not on the code). -/
 example : (0 : K) < 1 ∧ (0 : K) < 2 := ⟨by norm_num, by norm_num⟩
